@@ -912,7 +912,7 @@ func (e *emitter) callee(depth int, stmtStart bool) {
 	}
 }
 
-var strPieces = []string{"a", "bc", " ", "hello", "x1", "\\n", "\\t", "\\\\", "\\x41", "\\u0041", "\\u{1F600}", "%", "{", "}", "//", ";", "é", "日"}
+var strPieces = []string{"a", "bc", " ", "hello", "x1", "\\n", "\\t", "\\\\", "\\x41", "\\xff", "\\x80\\xe9", "\\u0041", "\\u{1F600}", "%", "{", "}", "//", ";", "é", "日"}
 
 func (e *emitter) stringLit() string {
 	q := "'"
